@@ -19,42 +19,6 @@ open OttoVerif.C07
 
 /-! ### deviation regions (decidable predicates over the request, evaluated along the model run) -/
 
-/-- `Dev_generic_loses_writable`: a generic, non-empty descriptor is accepted for an existing
-    WRITABLE data property – the stored write trit becomes 2 ("unset"), which reads as not writable. -/
-def devGenericAt (o : MObj) (n : Name) (d : MProp) : Bool :=
-  match alookup n o.props with
-  | some prop =>
-    (match prop.value with | .val _ => true | _ => false) && prop.writable &&
-    d.isGenericDescriptor && !d.isEmpty && (defineOwn o n d).isSome
-  | none => false
-
-/-- `Dev_acc_to_data_keeps_accessor`: an accessor property is redefined with a data descriptor that
-    has `writable` but no `value` – otto keeps the getter/setter pair as the "value". -/
-def devAccToDataAt (o : MObj) (n : Name) (d : MProp) : Bool :=
-  match alookup n o.props with
-  | some prop =>
-    (match prop.value with | .gs _ _ => true | _ => false) &&
-    d.isDataDescriptor && (match d.value with | .nil => true | _ => false) && (defineOwn o n d).isSome
-  | none => false
-
-/-- regions hit while otto processes a property list one entry at a time -/
-def devList (o : MObj) : List (Name × DescArg) → Bool × Bool
-  | [] => (false, false)
-  | (n, d) :: t =>
-    match toPropertyDescriptor d with
-    | none => (false, false)
-    | some desc =>
-      match defineOwn o n desc with
-      | none => (false, false)
-      | some o' =>
-        let r := devList o' t
-        (devGenericAt o n desc || r.1, devAccToDataAt o n desc || r.2)
-
-/-- `Dev_defineProperties_not_atomic`: some entry other than the first fails ToPropertyDescriptor -/
-def devNotAtomic : List (Name × DescArg) → Bool
-  | [] => false
-  | _ :: t => t.any (fun nd => (toPropertyDescriptor nd.2).isNone)
-
 /-- `Dev_strict_ignored`: an assignment / delete in strict code that ES5 makes throw (the model's
     sloppy run of the same operation is refused) – otto has no strict mode. -/
 def devStrict (h : MHeap) : Op → Bool
@@ -74,22 +38,7 @@ def devStrict (h : MHeap) : Op → Bool
   | _ => false
 
 def devStep (h : MHeap) (op : Op) (_h' : MHeap) : List String :=
-  let (g, a2d) : Bool × Bool :=
-    match op with
-    | .defn a n d =>
-      (match h[a]?, toPropertyDescriptor d with
-       | some o, some desc => (devGenericAt o n desc, devAccToDataAt o n desc)
-       | _, _ => (false, false))
-    | .defs a l => (match h[a]? with | some o => devList o l | none => (false, false))
-    | .create p l => devList ⟨p, true, []⟩ l
-    | _ => (false, false)
-  let na := match op with
-    | .defs a l => (h[a]?).isSome && devNotAtomic l
-    | _ => false
-  (if devStrict h op then ["strict_ignored"] else []) ++
-  (if g then ["generic_loses_writable"] else []) ++
-  (if a2d then ["acc_to_data_keeps_accessor"] else []) ++
-  (if na then ["defineProperties_not_atomic"] else [])
+  if devStrict h op then ["strict_ignored"] else []
 
 def devRun (h : MHeap) : List Op → List String
   | [] => []
